@@ -384,6 +384,9 @@ def lastTy (p : Builder.Path) : Ty :=
   | some it => it.ty
   | none => .bad "" {}
 
+/-- `builder.errors[k] = …`: a Go map, keys are unique -/
+def addKey (k : String) (ks : List String) : List String := if ks.contains k then ks else ks ++ [k]
+
 /-- the `assignment` template: nil checks, set-up (nested `Build()` calls), value, method -/
 def applyAssignment (c : Ctx) (env : Env) (st : BState) (a : Assignment) : AStep :=
   match nilChecks c env a.nilChecks st.internal with
@@ -394,7 +397,7 @@ def applyAssignment (c : Ctx) (env : Env) (st : BState) (a : Assignment) : AStep
     match evalValue c env (lastTy a.path) a.value with
     | .panic w => .panic w
     | .unsup w => .unsup w
-    | .stop => .stop { internal := v1, errors := st.errors ++ [pathString a.path] }
+    | .stop => .stop { internal := v1, errors := addKey (pathString a.path) st.errors }
     | .val x =>
       match (stepsOf env true a.path).bind fun steps => upd steps (assignOp a.method x) v1 with
       | .ok v2 => .cont { st with internal := v2 }
